@@ -1,4 +1,4 @@
-use plugin_iface::{PlugCb, PlugIface};
+use plugin_iface::*;
 use savefile_derive::savefile_abi_export;
 
 #[derive(Default)]
@@ -12,3 +12,39 @@ impl PlugIface for PlugImpl {
     }
 }
 savefile_abi_export!(PlugImpl, PlugIface);
+
+#[derive(Default)]
+pub struct LayoutImpl;
+impl LayoutIface for LayoutImpl {
+    fn rust_rec(&self, r: &RustRec) -> u64 {
+        d_rust(r)
+    }
+    fn c_rec(&self, r: &CRec) -> u64 {
+        d_c(r)
+    }
+    fn c_packed(&self, r: &CPacked) -> u64 {
+        d_packed(r)
+    }
+    fn renum(&self, e: &REnum) -> u64 {
+        d_enum(e)
+    }
+    fn tuple(&self, t: &(u8, u32, u16)) -> u64 {
+        d_tuple(t)
+    }
+    fn vec_rust(&self, v: &Vec<RustRec>) -> u64 {
+        v.iter().enumerate().map(|(i, r)| (i as u64 + 1) * d_rust(r)).sum()
+    }
+    fn slice_rust(&self, v: &[RustRec]) -> u64 {
+        v.iter().enumerate().map(|(i, r)| (i as u64 + 1) * d_rust(r)).sum()
+    }
+    fn string(&self, s: &String) -> u64 {
+        s.bytes().enumerate().map(|(i, b)| (i as u64 + 1) * b as u64).sum()
+    }
+    fn echo(&self, r: &RustRec) -> RustRec {
+        r.clone()
+    }
+    fn layouts(&self) -> Vec<u64> {
+        layout_facts()
+    }
+}
+savefile_abi_export!(LayoutImpl, LayoutIface);
